@@ -2,12 +2,55 @@ import PsiModel.EpochsExt
 import PsiProofs.C18
 import PsiProofs.Helper.C18Ext_Search
 import PsiProofs.Helper.C18Ext_Bits
+import PsiProofs.Helper.C18Ext_Pad
 /-!
 EXT18 — theorems about helpers of util.py that property C18 does not name (NOT part of `./check C18`;
 registry `lean/registry/EXT18.txt`).
 -/
 namespace Psi.EpochsExt
 open Psi.Epochs
+
+/-! ### `epochs(x, pad)` -/
+
+/-- For EVERY `pad` (negative ones and those larger than the array included) `util.epochs(x, pad)` never raises and
+returns the maximal runs of the array as the two padding loops left it (the caller's array is modified in place). -/
+theorem epochs_pad_eq_runs_of_modified_array (x : List Bool) (pad : Int) :
+    epochsPad x pad = (.ok (maximalRuns (padded x pad)), padded x pad) := by
+  simp [epochsPad, epochs_eq_runs]
+
+/-- what `dilate` is, declaratively: same length, sample `i` high iff a high sample of `x` lies within distance `pad`. -/
+theorem dilate_spec (x : List Bool) (pad : Nat) :
+    (dilate x pad).length = x.length ∧
+    ∀ (i : Nat) (hi : i < (dilate x pad).length),
+      ((dilate x pad)[i] = true ↔ ∃ j, x[j]? = some true ∧ i ≤ j + pad ∧ j ≤ i + pad) :=
+  ⟨dilate_length x pad, fun i hi => dilate_getElem_iff x pad i hi⟩
+
+/-- `util.epochs(x, pad)`, `pad ≥ 0`, under the guard "no rising edge is closer than `pad` to the start of the array"
+(so that no slice `x[s-pad:s]` has a negative start): the result is the run detection of the signal dilated by `pad`
+on both sides, and that dilated signal is what the caller's array holds afterwards. -/
+theorem epochs_pad_eq_runs_dilate_partial (x : List Bool) (pad : Nat)
+    (guard : ∀ s ∈ tsRising x, pad ≤ s) :
+    epochsPad x (pad : Int) = (.ok (maximalRuns (dilate x pad)), dilate x pad) := by
+  rw [epochs_pad_eq_runs_of_modified_array, padded_eq_dilate x pad guard]
+
+example : (∀ s ∈ tsRising [false, false, true, false, false, false, true, false], 2 ≤ s) ∧
+    epochsPad [false, false, true, false, false, false, true, false] 2 = (.ok [(0, 8)], List.replicate 8 true) ∧
+    epochsPad [false, false, true, false, false, false, true, false] 1
+      = (.ok [(1, 4), (5, 8)], [false, true, true, true, false, true, true, true]) := by decide
+
+/-- the guard is needed — the negative-slice quirk: a rising edge at `s < pad` makes `x[s-pad:s]` count from the END
+of the array (an empty slice here), so the samples before the run are NOT padded. -/
+theorem epochs_pad_negative_slice_counterexample :
+    epochsPad [false, true, false, false] 2 = (.ok [(1, 4)], [false, true, true, true]) ∧
+    dilate [false, true, false, false] 2 = [true, true, true, true] ∧
+    maximalRuns (dilate [false, true, false, false] 2) = [(0, 4)] ∧
+    ¬ (∀ s ∈ tsRising [false, true, false, false], 2 ≤ s) := by decide
+
+/-- the same quirk when `pad` exceeds the array length: the wrapped slice is not empty but partial. -/
+example : epochsPad [false, false, true] 4 = (.ok [(1, 3)], [false, true, true]) ∧
+    dilate [false, false, true] 4 = [true, true, true] := by decide
+/-- a negative `pad` passes `if pad:`; `x[e:e+pad]` is then `x[1:-1]` here: a slice that ends one before the END of the array. -/
+example : epochsPad [true, false, false, false] (-2) = (.ok [(0, 3)], [true, true, true, false]) := by decide
 
 /-! ### `epochs_contain` -/
 
